@@ -40,9 +40,15 @@ func vIxn(tag string, withPeer bool) *structs.Intention {
 	}
 	if withPeer && verifrt.Bool(tag+".peered") {
 		x.SourcePeer = "p1"
+		if vTwoPeers && verifrt.Bool(tag+".peer2") {
+			x.SourcePeer = "p2"
+		}
 	}
 	return x
 }
+
+// vTwoPeers: sources may come from two different peers (only where the order among peers matters)
+var vTwoPeers bool
 
 // specificity rank of a matching intention: exact destination outranks
 // wildcard destination; within that, exact source outranks wildcard source.
@@ -149,5 +155,33 @@ func VerifC13_LessIsStrictOrder() {
 	verifrt.Assert("C13.less.total-on-distinct", same || s.Less(0, 1) || s.Less(1, 0))
 	// precedence respects specificity
 	verifrt.Assert("C13.precedence.respects-specificity", !(vRank(xs[0]) > vRank(xs[1])) || xs[0].Precedence > xs[1].Precedence)
+	verifrt.Reached("end")
+}
+
+
+// Intentions that differ only in the peer of their source are ordered deterministically: the comparator is
+// strict and total on them (local before peered, peers in a fixed order), so match and list results do not
+// depend on the order in which sources were written.
+func VerifC13_LessPeerTieBreak() {
+	peers := []string{"", "p1", "p2"}
+	mk := func(tag string) *structs.Intention {
+		x := &structs.Intention{SourceNS: "default", DestinationNS: "default", SourceName: "web", DestinationName: "db",
+			SourcePeer: peers[verifrt.Choice(tag+".peer", 3)], Action: structs.IntentionActionAllow}
+		x.UpdatePrecedence()
+		return x
+	}
+	xs := structs.Intentions{mk("a"), mk("b"), mk("c")}
+	s := structs.IntentionPrecedenceSorter(xs)
+	for i := 0; i < 3; i++ {
+		for j := 0; j < 3; j++ {
+			same := xs[i].SourcePeer == xs[j].SourcePeer
+			verifrt.Assert("C13.less.peers.total-on-distinct", same || s.Less(i, j) || s.Less(j, i))
+			verifrt.Assert("C13.less.peers.asymmetric", !(s.Less(i, j) && s.Less(j, i)))
+			verifrt.Assert("C13.less.peers.irreflexive-on-equal", !same || !s.Less(i, j))
+			for k := 0; k < 3; k++ {
+				verifrt.Assert("C13.less.peers.transitive", !(s.Less(i, j) && s.Less(j, k)) || s.Less(i, k))
+			}
+		}
+	}
 	verifrt.Reached("end")
 }
